@@ -86,7 +86,10 @@ class ReuseSim final : public Engine {
   std::string GenInput(Ctx& c, bool wantLogic, bool wantFunc) {
     auto& r = c.gen; const auto env = EnvOf(*model);
     exprgen::Gen g(r, env, static_cast<int>(c.C("expr_depth", 2)));
+    g.siblingReuse = r.Pct(static_cast<int>(c.C("p_reuse_locals", 10)));
     std::string t = wantFunc ? g.FunctionDef(r.Pct(50)) : g.TopLevel(wantLogic);
+    if (!wantFunc && !wantLogic && g.siblingReuse && r.Pct(50)) t = "(" + t + "," + g.TopLevel(false) + ")";
+    if (r.Pct(static_cast<int>(c.C("p_reuse_locals", 10)))) t = exprgen::ReuseLocalNames(t);
     if (r.Pct(static_cast<int>(c.C("p_mutant", 25)))) t = exprgen::Mutate(r, t, env);
     if (r.Pct(static_cast<int>(c.C("p_multiline", 10)))) { auto cps = exprgen::CodePoints(t); if (!cps.empty()) { cps.insert(cps.begin() + static_cast<long>(r.Below(cps.size())), "\n"); t.clear(); for (auto& x : cps) t += x; } }
     if (r.Pct(static_cast<int>(c.C("p_ascii", 15)))) t = rslang::ConvertTo(t, rslang::Syntax::ASCII);
@@ -100,7 +103,7 @@ public:
   uint64_t DefaultRuns(const std::string&, bool thorough) const override { return thorough ? 200000 : 6000; }
   Cfg GenCfg(Rng& r, const std::string& focus, bool) override {
     Cfg c; c["steps"] = r.Range(10, 60); c["clients"] = r.Range(2, 4);
-    c["expr_depth"] = r.Range(1, 3); c["p_mutant"] = r.Range(5, 50); c["p_multiline"] = r.Range(0, 25); c["p_ascii"] = r.Range(0, 30);
+    c["expr_depth"] = r.Range(1, 3); c["p_mutant"] = r.Range(5, 50); c["p_multiline"] = r.Range(0, 25); c["p_ascii"] = r.Range(0, 30); c["p_reuse_locals"] = r.Range(0, 30);
     static const std::vector<int> its{ 20, 200, 2000 }; c["max_iterations"] = r.Pick(its);
     static const std::vector<int> lim{ 0, 1, 2, 5, 100 }; c["cache_limit"] = r.Pick(lim);
     c["uid_policy"] = r.Range(0, 3);
@@ -215,6 +218,12 @@ public:
     } catch (const std::exception& ex) {
       c.Fail("C04", "escaped_exception", k + "/" + typeid(ex).name(), std::string("exception escaped ") + Brief(op) + ": " + ex.what());
       return;
+    }
+    if (compared && prop == "C04") {
+      // C04 facet: whatever state the long-lived analysers are in, error positions stay inside the input and the verdict matches the log
+      c.Oracle("reused_analyser_positions");
+      size_t at = 0; const std::string& e = shared.errors;
+      while ((at = e.find('@', at)) != std::string::npos) { const long pos = std::strtol(e.c_str() + at + 1, nullptr, 10); if (pos < 0 || pos > static_cast<long>(text.size()) + 16) { c.Fail("C04", "error_position", trig + "/reused-analyser", k + " of '" + text + "' reports an error at position " + std::to_string(pos) + ", input has " + std::to_string(text.size()) + " bytes"); return; } ++at; }
     }
     if (compared) {
       c.Oracle("shared_equals_fresh");
